@@ -262,7 +262,10 @@ bloc::Value * UTF8Plugin::executeMethod(
     bloc::Value& a0 = args[0]->value(ctx);
     if (a0.isNull())
       throw RuntimeError(EXC_RT_OTHER_S, "Invalid arguments.");
-    return new bloc::Value(bloc::Integer(u->operator[](*a0.integer())));
+    bloc::Integer pos = *a0.integer();
+    if (pos < 0 || (size_t)pos >= u->Size())
+      throw RuntimeError(EXC_RT_INDEX_RANGE_S, a0.toString().c_str());
+    return new bloc::Value(bloc::Integer(u->operator[](pos)));
   }
 
   case utf8::Remove:
